@@ -861,6 +861,86 @@ def judge_runs(ck, hbin, jobs):
 
 
 
+# ---------------------------------------------------------------------------------- part C': FMT* internals (oracle only)
+def make_fmt_jobs(ck, rng):
+    jobs = []
+    for i in range(8 if ck.tier == "quick" else 60):
+        r = rng.fork("fmt%d" % i)
+        jobs.append("fmt %s %d %d %d %d %d %d %s" % (["len", "len", "sci", "work", "multi", "len", "scii", "len"][i % 8], r.range(1, 2), [0, 1, 2, 3, 4][i % 5],
+                                                      3 if i % 4 == 3 else 2, r.range(1, 10 ** 6), r.choice([150, 300, 600]), 5000, f2bits(r.choice([0.05, 0.1]))))
+    return jobs
+
+
+def oracle_fmt(line_job, out):
+    """FMT*'s cost-to-come bookkeeping on the REAL planner's tree: every connected motion's cost is its parent's cost
+    combined with the edge cost (additive objectives), the start has cost 0, parent chains end at the start, and the
+    cost of the reported path is the goal motion's cost-to-come.  (Sampled runs; FMT* is not in the Lean model.)"""
+    fails = []
+    body = [l for l in (out or []) if l.startswith("fmt ")]
+    if not body:
+        return [("fmt-crash", "no output: %s" % (out or [])[:2])], 0
+    head, _, rest = body[0].partition(" : ")
+    f = parse_flags(head)
+    ms = []
+    for tok in rest.split():
+        q = tok.split(":")
+        ms.append({"idx": int(q[0]), "parent": None if q[1] == "-" else (-1 if q[1] == "?" else int(q[1])), "cost": bits2f(q[2]), "costbits": q[2],
+                   "set": int(q[3]), "edge": bits2f(q[4])})
+    n = len(ms)
+    connected = 0
+    for m in ms:
+        p = m["parent"]
+        if p is None:
+            continue
+        connected += 1
+        if not (0 <= p < n):
+            fails.append(("fmt-tree", "motion %d has a parent outside the planner's motion set" % m["idx"]))
+            continue
+        exp = ms[p]["cost"] + m["edge"]
+        if f2bits(exp) != m["costbits"] and not close(m["cost"], exp, 1e-12):
+            fails.append(("fmt-cost-inv", "motion %d: cost-to-come %r is not parent %d's %r + edge %r" % (m["idx"], m["cost"], p, ms[p]["cost"], m["edge"])))
+        i, steps = m["idx"], 0
+        while i is not None and 0 <= i < n and steps <= n:
+            i = ms[i]["parent"]
+            steps += 1
+        if steps > n:
+            fails.append(("fmt-tree", "parent chain of motion %d does not end (cycle)" % m["idx"]))
+            break
+    if f.get("sol") == "1":
+        g = f.get("goal")
+        if g in (None, "-"):
+            fails.append(("fmt-goal", "a solution was reported but lastGoalMotion_ is not in the tree"))
+        else:
+            gc = ms[int(g)]["cost"]
+            pc = bits2f(f["pathcost"])
+            if not close(gc, pc, 1e-12):
+                fails.append(("fmt-stored", "goal motion's cost-to-come %r but the reported path costs %r" % (gc, pc)))
+    return fails, connected
+
+
+def judge_fmt(ck, hbin, jobs):
+    with concurrent.futures.ThreadPoolExecutor(max_workers=min(8, (os.cpu_count() or 4))) as ex:
+        results = list(ex.map(lambda j: (j, ck.run_bin(hbin, ["solnrun", j], timeout=300, env=RUN_ENV)), jobs))
+    nrep = {}
+    for j, (out, rc, err) in results:
+        ck.traces_validated += 1
+        fails, connected = oracle_fmt(j, out)
+        ck.case(("fmt", j), connected >= 3)
+        ck.count("fmt-runs")
+        ck.count("fmt-connected-motions", connected)
+        if rc != 0:
+            ck.count("fmt-aborted")     # FMT's destructor crash with Minimax-type objectives is a side observation, not C04
+        seen = set()
+        for kind, what in fails:
+            if kind in seen or nrep.get(kind, 0) >= 3:
+                continue
+            seen.add(kind)
+            nrep[kind] = nrep.get(kind, 0) + 1
+            if ck.report({"engine": "soln", "part": "C", "kind": kind, "planner": "FMT", "what": what}, script=["solnrun", j], expected=None,
+                         observed=[l[:2000] for l in (out or [])[:3]], engine="soln"):
+                ck.log("property failure in FMT* run %s: [%s] %s" % (j, kind, what[:300]))
+
+
 # ---------------------------------------------------------------------------------- part D: RRT* in the model
 DRIVER_RRT = "drv_rrtstar"
 
@@ -1177,7 +1257,10 @@ def run(ck):
     ck.log("parts A/B done (%d scripts)" % ck.traces_validated)
     jobs = make_jobs(ck, ck.rng.fork("runs"))
     judge_runs(ck, hbin, jobs)
-    ck.log("part C done (%d planner runs)" % len(jobs))
+    fjobs = make_fmt_jobs(ck, ck.rng.fork("fmt"))
+    judge_fmt(ck, hbin, fjobs)
+    ck.extra_cov["fmt_internal_runs"] = len(fjobs)
+    ck.log("part C done (%d planner runs, %d FMT* internals runs)" % (len(jobs), len(fjobs)))
     hrrt = build_rrt(ck)
     rjobs = make_rrt_jobs(ck, ck.rng.fork("rrt")) + make_lattice_jobs(ck, ck.rng.fork("rrt-lattice"))
     judge_rrt(ck, hrrt, rjobs)
@@ -1212,6 +1295,13 @@ def replay(ck, data):
             return 1
         print("no failure on the current tree")
         return 0
+    if script and script[0] == "solnrun" and len(script) > 1 and script[1].startswith("fmt "):
+        out, rc, err = ck.run_bin(hbin, script, timeout=300, env=RUN_ENV)
+        fails, connected = oracle_fmt(script[1], out)
+        for k, w in fails:
+            print("FAILS [%s]: %s" % (k, w))
+        print("%d connected motions" % connected)
+        return 1 if fails else 0
     if script and script[0] == "solnrun":
         out, rc, err = ck.run_bin(hbin, script, timeout=300, env=RUN_ENV)
         for l in out or []:
@@ -1258,7 +1348,10 @@ MANIFEST = {
             "updateChildCosts, incumbent and approximate-solution bookkeeping, libstdc++ std::sort ported for exact tie order), "
             "proved for every history of loop passes / interruptions / continued solves: cost invariant, tree invariant "
             "(children lists = inverse parent pointers, acyclic, fuel suffices), stored cost = fold of the reported path, "
-            "bestCost_ monotone, flag as coded; bit-for-bit lock-step of the whole tree against the real planner (recording "
+            "bestCost_ monotone and equal to the best goal motion's current cost, optimized flag <-> isSatisfied(stored cost) for "
+            "exact solutions (no partial theorem left); algebraic laws of the shipped objectives (monoid laws, max/min, trapezoid, "
+            "mechanical work, weighted sums) and a Laws instance (non-vacuity); oracle-only: FMT* cost-to-come bookkeeping on real "
+            "trees; bit-for-bit lock-step of the whole tree against the real planner (recording "
             "sampler / validator, twin RNG), incl. scripted collinear dyadic inputs with exactly cost-equal candidates.",
     "note": "Trusted: Lean kernel, the three standard axioms, the hand-written model outside the scripts the correspondence explored, "
             "the harness, the Python oracle. Part C is sampled (planners x objectives x environments x seeds listed in the evidence); "
